@@ -524,6 +524,7 @@ def main(prop, tier, replay_path=None):
         return 1 if bad else 0
 
     budget = mod.BUDGET_S[tier] if hasattr(mod, "BUDGET_S") else {"quick": 90, "thorough": 900}[tier]
+    budget = max(20, budget * float(os.environ.get("VF_BUDGET_SCALE", "1") or 1))  # smoke-testing a tier with a shorter budget
     os.environ["VF_DEADLINE"] = str(time.time() + budget)
     hard = budget * 2 + 60
 
